@@ -51,6 +51,8 @@ pub struct PairWorld {
     pub ops: Vec<String>,
     /// list the assets of the next ProvideLiquidity message in reverse pool order
     pub reverse_order: bool,
+    /// the pair was instantiated directly by the deployer (not through the factory), cw20 addresses given in upper case
+    pub direct: bool,
 }
 
 fn fees_of(resp: &pm::ProtocolFeesResponse, assets: &[AssetRef; 2]) -> [u128; 2] {
@@ -169,6 +171,9 @@ impl PairWorld {
 
     pub fn set_fees(&mut self, t: [u128; 3]) -> Result<cw_multi_test::AppResponse, String> {
         let (o, f, pa) = (self.core.owner.clone(), self.core.factory.clone(), self.pair.addr.clone());
+        if self.direct {
+            return exec(&mut self.app, &o, &pa, &pm::ExecuteMsg::UpdateConfig { owner: None, fee_collector_addr: None, pool_fees: Some(pool_fee(t)), feature_toggle: None }, &[]);
+        }
         exec(
             &mut self.app,
             &o,
@@ -182,6 +187,12 @@ impl PairWorld {
 pub const USER_FUNDS: u128 = 1u128 << 124;
 
 pub fn build_pair_world(r: &mut Rng, kind: Kind, variant: u64) -> PairWorld {
+    build_pair_world_opt(r, kind, variant, false)
+}
+
+/// `allow_direct`: one world in five is a pair instantiated directly by the deployer (only the pool history workloads
+/// ask for it; C15 / C17 drive their pairs through the factory)
+pub fn build_pair_world_opt(r: &mut Rng, kind: Kind, variant: u64, allow_direct: bool) -> PairWorld {
     let owner = Addr::unchecked("owner");
     let users: Vec<Addr> = vec![Addr::unchecked("user0"), Addr::unchecked("user1"), Addr::unchecked("user2"), Addr::unchecked("attacker")];
     let kinds = [(true, true), (true, false), (false, true), (false, false)][(variant % 4) as usize];
@@ -228,7 +239,33 @@ pub fn build_pair_world(r: &mut Rng, kind: Kind, variant: u64) -> PairWorld {
             (PairType::StableSwap { amp }, amp)
         }
     };
-    let pair = create_pair(&mut app, &owner, &core.factory, [a0, a1], pool_fee(fees), pt).expect("create pair");
+    // one world in five does not go through the factory: the deployer instantiates the pair code directly and writes
+    // cw20 addresses in upper case (accepted and normalised by the pair); the deployer is then the pair's owner
+    let direct = allow_direct && (variant / 4) % 5 == 2;
+    let pair = if direct {
+        let up = |a: &AssetRef| match a {
+            AssetRef::Cw20(t) => white_whale_std::pool_network::asset::AssetInfo::Token { contract_addr: t.to_string().to_uppercase() },
+            other => other.info(),
+        };
+        let addr = inst(
+            &mut app,
+            core.codes.pair,
+            &owner,
+            &pm::InstantiateMsg { asset_infos: [up(&a0), up(&a1)], token_code_id: core.codes.token, asset_decimals: decs, pool_fees: pool_fee(fees), fee_collector_addr: core.collector.to_string(), pair_type: pt, token_factory_lp: false },
+            &[],
+            "directly instantiated pair",
+            None,
+        )
+        .expect("instantiate pair directly");
+        let info: white_whale_std::pool_network::asset::PairInfo = query(&app, &addr, &pm::QueryMsg::Pair {}).expect("pair info");
+        let lp = match info.liquidity_token {
+            white_whale_std::pool_network::asset::AssetInfo::Token { contract_addr } => Addr::unchecked(contract_addr),
+            white_whale_std::pool_network::asset::AssetInfo::NativeToken { denom } => Addr::unchecked(denom),
+        };
+        PairHandle { addr, lp, assets: [a0, a1], decimals: info.asset_decimals }
+    } else {
+        create_pair(&mut app, &owner, &core.factory, [a0, a1], pool_fee(fees), pt).expect("create pair")
+    };
     tokens.push(pair.lp.clone());
     for a in &pair.assets {
         if let AssetRef::Cw20(t) = a {
@@ -237,7 +274,7 @@ pub fn build_pair_world(r: &mut Rng, kind: Kind, variant: u64) -> PairWorld {
             }
         }
     }
-    PairWorld { app, core, pair, kind, amp, fees, users, tokens, charged: [0; 2], sent: [0; 2], burned: [0; 2], first_deposit_done: false, ops: vec![], reverse_order: false }
+    PairWorld { app, core, pair, kind, amp, fees, users, tokens, charged: [0; 2], sent: [0; 2], burned: [0; 2], first_deposit_done: false, ops: vec![], reverse_order: false, direct }
 }
 
 fn u(s: &str) -> u128 {
@@ -979,7 +1016,10 @@ pub fn gen_spread(r: &mut Rng) -> Option<u128> {
 
 /// One random history on a fresh world.
 pub fn run_history(acc: &mut Acc, r: &mut Rng, kind: Kind, variant: u64, steps: u64, prop: &str) {
-    let mut wd = build_pair_world(r, kind, variant);
+    let mut wd = build_pair_world_opt(r, kind, variant, true);
+    if wd.direct {
+        acc.count("world.pair-instantiated-directly");
+    }
     // scale of this history's reserves
     let (lo_bits, hi_bits) = match kind {
         Kind::Cp => (10u64, 118u64),
